@@ -256,6 +256,47 @@ Definition dg_commit (g : dg_graph) (extra : list dg_dep) : dg_graph * bool :=
 Definition dg_remove_dep (g : dg_graph) (id : nat) : dg_graph :=
   dg_with_deps g (filter (fun d => negb (Nat.eqb (dgd_id d) id)) (dgg_deps g)).
 
+(* ---------------- one configuration load = a sequence of commit batches ----------------
+   ConfigItem::CommitNewItems commits the Dependency objects of a load in several rounds: apply-rule
+   instances are created (CreateChildObjects) and committed in a later, nested round than plain
+   `object Dependency` items, and each round runs BeforeOnAllConfigLoadedHandler over ITS items only.
+   Between the rounds Dependency::OnAllConfigLoaded has already handed the earlier items to their child:
+   a child that is not started yet keeps them in m_PendingDependencies, a started child registers them
+   into its groups.  The checker consults GetDependencies(includePending = true) = pending ++ registered. *)
+Record dg_lstate := {
+  dgl_g : dg_graph;                 (* nodes, services, dependencies registered in groups *)
+  dgl_pending : list dg_dep         (* all m_PendingDependencies *)
+}.
+
+(* what AssertNoCycle sees as "registered" edges: GetDependencies(includePending = true) *)
+Definition dg_lview (l : dg_lstate) : dg_graph :=
+  dg_with_deps (dgl_g l) (dgl_pending l ++ dgg_deps (dgl_g l)).
+
+(* one round: check the batch against the view, then OnAllConfigLoaded -> Checkable::AddDependency *)
+Definition dg_lbatch (started : nat -> bool) (l : dg_lstate) (b : list dg_dep) : option dg_lstate :=
+  if dg_check_ok (dg_lview l) b then
+    Some {| dgl_g := dg_with_deps (dgl_g l)
+                       (dgg_deps (dgl_g l) ++ filter (fun d => started (dgd_child d)) b);
+            dgl_pending := dgl_pending l ++ filter (fun d => negb (started (dgd_child d))) b |}
+  else None.
+
+Fixpoint dg_lbatches (started : nat -> bool) (l : dg_lstate) (bs : list (list dg_dep)) : option dg_lstate :=
+  match bs with
+  | [] => Some l
+  | b :: r => match dg_lbatch started l b with Some l' => dg_lbatches started l' r | None => None end
+  end.
+
+(* activation: Checkable::Start -> PushDependencyGroupsToRegistry, nothing stays pending *)
+Definition dg_lfinish (l : dg_lstate) : dg_graph :=
+  dg_with_deps (dgl_g l) (dgg_deps (dgl_g l) ++ dgl_pending l).
+
+(* a whole load: the first rejected round rejects the load (all its items are unregistered) *)
+Definition dg_load (started : nat -> bool) (g : dg_graph) (bs : list (list dg_dep)) : dg_graph * bool :=
+  match dg_lbatches started {| dgl_g := g; dgl_pending := [] |} bs with
+  | Some l => (dg_lfinish l, true)
+  | None => (g, false)
+  end.
+
 (* ---------------- dependency group registry ---------------- *)
 (* DependencyGroup::CompositeKeyType = (parent, period, state filter, ignore_soft_states) *)
 Definition dg_ckey := (nat * option nat * Z * bool)%type.
